@@ -85,7 +85,10 @@ def make_inventory_object(resource_provider, resource_class, **data):
         inventory = inv_obj.Inventory(
             resource_provider=resource_provider,
             resource_class=resource_class, **data)
-    except (ValueError, TypeError) as exc:
+        # An allocation_ratio of NaN or +/-Infinity passes the JSON schema
+        # ("number") but yields no capacity.
+        inventory.capacity
+    except (ValueError, TypeError, OverflowError) as exc:
         raise webob.exc.HTTPBadRequest(
             'Bad inventory %(class)s for resource provider '
             '%(rp_uuid)s: %(error)s' % {'class': resource_class,
